@@ -222,7 +222,7 @@ func (r *runner) do(sec string, ep *EP, in []byte, class string) (ok, bad bool) 
 		return false, true
 	}
 	if d := a1 - a0; d > allocBound(ep, len(in)) && a1 > a0 {
-		key := "alloc/" + ep.Name + "/" + allocClass(class)
+		key := "alloc/" + keyName(ep.Name) + "/" + allocClass(class)
 		// the first case of a key (and every borderline case) is confirmed with the precise counter; once the key is
 		// confirmed, a case whose fast delta exceeds twice the bound is counted without re-running it three times
 		pd := d
@@ -254,7 +254,7 @@ func (r *runner) do(sec string, ep *EP, in []byte, class string) (ok, bad bool) 
 		}
 		if slow {
 			inc := append([]byte{}, in...)
-			c.Violation(sec, "slow/"+ep.Name, fmt.Sprintf("%s needs more than %v (%.1f s at best over 4 runs) for the %d-byte input %s [%s]", ep.Name, slowBudget, worst.Seconds(), len(in), short(in), class),
+			c.Violation(sec, "slow/"+keyName(ep.Name), fmt.Sprintf("%s needs more than %v (%.1f s at best over 4 runs) for the %d-byte input %s [%s]", ep.Name, slowBudget, worst.Seconds(), len(in), short(in), class),
 				caseRec{ep.Name, vc.Hex(inc), class}, nil)
 			c.Outcome(sec, "SLOW")
 			return ok, true
@@ -346,6 +346,14 @@ func (r *runner) tripped(sec string, ep *EP, class string) bool {
 	return true
 }
 
+// keyName strips the session parameter of a pipeline entry point, so that a key names the library path, not the fixture.
+func keyName(ep string) string {
+	if i := strings.IndexByte(ep, '['); i > 0 {
+		return ep[:i]
+	}
+	return ep
+}
+
 // allocClass maps an input class to the root-cause part of an allocation key.
 func allocClass(class string) string {
 	if i := strings.IndexByte(class, ':'); i > 0 {
@@ -434,7 +442,7 @@ func run(c *vc.Ctx) {
 		close(stop)
 		os.Remove(r.curFile)
 	case rec := <-r.hang:
-		c.Violation("watchdog", "slow/"+rec.EP, fmt.Sprintf("%s did not return within %v on a %d-byte input %s (worker abandoned the call)", rec.EP, hangLimit, len(rec.In)/2, short(vc.Unhex(rec.In))), rec, nil)
+		c.Violation("watchdog", "slow/"+keyName(rec.EP), fmt.Sprintf("%s did not return within %v on a %d-byte input %s (worker abandoned the call)", rec.EP, hangLimit, len(rec.In)/2, short(vc.Unhex(rec.In))), rec, nil)
 		c.SecNotExhaustive("watchdog", "a call did not return; the worker stopped enumerating")
 	}
 }
